@@ -7,6 +7,8 @@ area = "codec"
 driver = "drv_codec"
 cxx = False
 fixed_lines = 1
+# allocation failures are injected through a wrapped malloc (harness/drv_codec.c)
+link_extra = ["-Wl,--wrap=malloc"]
 lean_modules = ["Driver.Codec"]
 DECODERS = ["cobs", "cobs/r", "cobs/zpe", "cobs/zpe+r"]
 ALPHA = [0x00, 0x01, 0x02, 0x1f, 0x20, 0xde, 0xdf, 0xe0, 0xe1, 0xfe, 0xff]
